@@ -1069,3 +1069,200 @@ func TestVerifC17Gate(t *testing.T) {
 	}
 	r.Sample(vfGateOps[3].Name)
 }
+
+// ---- C02 at a topic master: copies handed to the proxies of other nodes ----------------------------
+//
+// A channel-enabled group hosted by node X; node P proxies a group member (the owner) and a channel
+// reader. Their attachments arrive through the real TopicMaster endpoint and create two multiplexing
+// sessions on X ("grpXXX-p" and "chnXXX-p"). Every sequence up to a depth of {owner joins, reader
+// joins, reader leaves, owner publishes, owner publishes without echo} is executed; the {data} copies
+// queued for each multiplexing session are judged: the group's one carries the group name and the
+// author, the channel's one the channel spelling and no author, each accepted message once.
+
+func TestVerifC02Cluster(t *testing.T) {
+	vfProcessInit()
+	r := vfev.New("C02", "cluster")
+	defer r.Finish()
+	type op struct{ name, kind string }
+	ops := []op{{"owner joins through the proxy", "joinG"}, {"reader joins through the proxy", "joinC"}, {"reader leaves", "leaveC"},
+		{"owner publishes", "pub"}, {"owner publishes without echo", "pubne"}}
+	depth := 4
+	if vfev.Thorough() {
+		depth = 5
+	}
+	var seqs [][]int
+	var gen func(cur []int)
+	gen = func(cur []int) {
+		if len(cur) > 0 {
+			seqs = append(seqs, append([]int{}, cur...))
+		}
+		if len(cur) == depth {
+			return
+		}
+		for i := range ops {
+			gen(append(cur, i))
+		}
+	}
+	gen(nil)
+	shard, shards := vfev.Shard()
+	for si, seq := range seqs {
+		if si%shards != shard {
+			continue
+		}
+		var names []string
+		for _, i := range seq {
+			names = append(names, ops[i].name)
+		}
+		res := vsched.Run(vsched.Config{MaxSteps: 2000000}, func() {
+			w := vfBoot(vfBootOpts{})
+			owner := w.vfMakeUser("owner", 20, map[string]any{"fn": "owner"})
+			reader := w.vfMakeUser("reader", 20, map[string]any{"fn": "reader"})
+			oc := w.vfConnect("oc")
+			vsched.Quiesce()
+			oc.Login(owner)
+			grp := ""
+			_, fr := oc.Req(`{"sub":{"id":"$ID","topic":"nch1","set":{"desc":{"public":{"fn":"Chan"}}}}}`)
+			for _, f := range fr {
+				if f.Msg.Ctrl != nil && strings.HasPrefix(f.Msg.Ctrl.Topic, "grp") {
+					grp = f.Msg.Ctrl.Topic
+				}
+			}
+			if grp == "" {
+				vsched.Fail("harness", "no channel topic")
+			}
+			oc.Req(`{"leave":{"id":"$ID","topic":"%s"}}`, grp)
+			oc.Disconnect()
+			vsched.Quiesce()
+			vsched.Advance(20 * 1e9)
+			chn := strings.Replace(grp, "grp", "chn", 1)
+			xname := ""
+			for i := 0; i < 400 && xname == ""; i++ {
+				cand := fmt.Sprintf("x%d", i)
+				c := &Cluster{thisNodeName: cand, nodes: map[string]*ClusterNode{"p": {name: "p"}}}
+				c.rehash(nil)
+				if c.ring.Get(grp) == cand {
+					xname = cand
+				}
+			}
+			if xname == "" {
+				vsched.Fail("harness", "no node name makes the topic local")
+			}
+			vrpc.Net = &vfGateNet{}
+			vsched.OnKill(func() { vrpc.Net = nil })
+			x := &Cluster{thisNodeName: xname, fingerprint: 1, nodes: map[string]*ClusterNode{}}
+			cn := &ClusterNode{address: xname + ">p", name: "p", done: make(chan bool, 1), msess: map[string]struct{}{}, rpcDone: make(chan *vrpc.Call, 64)}
+			cn.endpoint = vrpc.NewClient(&vnet.FakeConn{Address: cn.address})
+			cn.connected = true
+			x.nodes["p"] = cn
+			x.rehash(nil)
+			globals.cluster = x
+			send := func(reqType ProxyReqType, u *vfUser, sid, original, js string) bool {
+				var m ClientComMessage
+				if err := json.Unmarshal([]byte(js), &m); err != nil {
+					vsched.Fail("harness", err.Error())
+				}
+				m.AsUser, m.AuthLvl, m.Original, m.RcptTo = u.uid.UserId(), 20, original, grp
+				m.Timestamp = vsched.Now()
+				req := &ClusterReq{Node: "p", Signature: x.ring.Signature(), Fingerprint: 7, RcptTo: grp, ReqType: reqType, CliMsg: &m,
+					Sess: &ClusterSess{Uid: u.uid, AuthLvl: 20, Sid: sid, Ver: 22, UserAgent: "vf", RemoteAddr: "p"}}
+				var rejected bool
+				x.TopicMaster(req, &rejected)
+				vsched.Quiesce()
+				return rejected
+			}
+			drain := func(sid string) []*ServerComMessage {
+				var out []*ServerComMessage
+				ms := globals.sessionStore.Get(sid)
+				if ms == nil {
+					return nil
+				}
+				for len(ms.send) > 0 {
+					if m, ok := (<-ms.send).(*ServerComMessage); ok {
+						out = append(out, m)
+					}
+				}
+				return out
+			}
+			joinedG, joinedC, last, npub := false, false, 0, 0
+			for k, i := range seq {
+				o := ops[i]
+				isLast := k == len(seq)-1
+				switch o.kind {
+				case "joinG":
+					send(ProxyReqJoin, owner, "so", grp, fmt.Sprintf(`{"sub":{"id":"j%d","topic":"%s"}}`, k, grp))
+					if t := vfTopic(grp); t != nil {
+						joinedG = false
+						for s := range t.sessions {
+							if s.sid == grp+"-p" {
+								joinedG = true
+							}
+						}
+					}
+				case "joinC":
+					send(ProxyReqJoin, reader, "sr", chn, fmt.Sprintf(`{"sub":{"id":"c%d","topic":"%s"}}`, k, chn))
+				case "leaveC":
+					send(ProxyReqLeave, reader, "sr", chn, fmt.Sprintf(`{"leave":{"id":"l%d","topic":"%s"}}`, k, chn))
+				case "pub", "pubne":
+					npub++
+					ne := ""
+					if o.kind == "pubne" {
+						ne = `,"noecho":true`
+					}
+					send(ProxyReqBroadcast, owner, "so", grp, fmt.Sprintf(`{"pub":{"id":"p%d","topic":"%s","content":"m%d"%s}}`, k, grp, npub, ne))
+				}
+				joinedC = false
+				if t := vfTopic(grp); t != nil {
+					for s, pssd := range t.sessions {
+						if s.sid == chn+"-p" && pssd.isChanSub {
+							joinedC = true
+						}
+					}
+				}
+				gq, cq := drain(grp+"-p"), drain(chn+"-p")
+				if !isLast || (o.kind != "pub" && o.kind != "pubne") {
+					continue
+				}
+				r.Eval(1)
+				accepted := false
+				if tr := w.db.Topic(grp); tr != nil && tr.SeqId > last {
+					accepted = true
+					last = tr.SeqId
+				}
+				r.Outcome(fmt.Sprintf("pub:accepted=%v:grp-proxy=%v:chn-proxy=%v", accepted, joinedG, joinedC))
+				count := func(q []*ServerComMessage, wantTopic, wantFrom, which string, attached bool) {
+					n := 0
+					for _, m := range q {
+						if m.Data == nil {
+							continue
+						}
+						n++
+						if m.Data.Topic != wantTopic || m.Data.From != wantFrom || m.Data.SeqId != last {
+							r.Violation("C02:copy-fields:cluster:"+which, fmt.Sprintf("after %v the %s multiplexing session was handed {data topic=%s from=%q seq=%d}, expected topic=%s from=%q seq=%d",
+								names, which, m.Data.Topic, m.Data.From, m.Data.SeqId, wantTopic, wantFrom, last), map[string]any{"history": names})
+						}
+					}
+					want := 0
+					if accepted && attached {
+						want = 1
+					}
+					if n != want {
+						r.Violation(fmt.Sprintf("C02:fanout-count:cluster:%s:%d-for-%d", which, n, want), fmt.Sprintf("after %v the %s multiplexing session (attached=%v) was handed %d copies", names, which, attached, n), map[string]any{"history": names})
+					}
+				}
+				count(gq, grp, owner.uid.UserId(), "group", joinedG)
+				// when the same node also holds the group's multiplexing session the master hands the copy to
+				// that one only (the proxy topic on the other node fans it out to its channel readers)
+				count(cq, chn, "", "channel", joinedC && !joinedG)
+			}
+		})
+		r.Distinct(fmt.Sprint(seq))
+		if res.Status != "ok" {
+			if res.Status == "harness" {
+				r.Fail(fmt.Sprintf("%v: %s", names, res.Detail))
+				return
+			}
+			r.Violation("C02:cluster:"+res.Status+":"+vfPanicSite(res.Detail), fmt.Sprintf("%s after %v: %s", res.Status, names, vfFirstLines(res.Detail, 12)), map[string]any{"history": names})
+		}
+	}
+	r.Sample("owner joins, reader joins, owner publishes")
+}
